@@ -17,6 +17,10 @@ int kfunc(struct kobj *k) { return k->refs; }
 long kvar;
 int kget(const struct kobj *k, int which) { return which ? (int) k->flags : k->refs; }
 int knot_exported(int x) { return x + 1; }
+#if V >= 1
+int kextra(struct kobj *k, int n) { return k->refs + n; }
+EXPORT_SYMBOL(kextra);
+#endif
 EXPORT_SYMBOL(kfunc);
 EXPORT_SYMBOL(kvar);
 EXPORT_SYMBOL(kget);
